@@ -157,6 +157,15 @@ Definition resliced (h : list (list val)) : bool :=
   exists_pair (fun a b => (N.eqb (fst a) (fst b) && negb (Nat.eqb (snd a) (snd b)))%bool)
               (flat_map (flat_map sl_views) h).
 
+(* hardening round 5: does the history hold two arguments that derived Equal tells apart and derived
+   Hash does not (each hash computed once) *)
+Definition real_collision (ps : list ty) (h : list (list val)) : bool :=
+  let hk := map (fun a => (a, hashm [] (key_ty ps) (key_val a))) h in
+  exists_pair (fun p q => match snd p, snd q with
+                          | Ok x, Ok y => (N.eqb x y && negb (args_equal ps (fst p) (fst q)))%bool
+                          | _, _ => false
+                          end) hk.
+
 Definition eval_hist (ps : list ty) (nres : nat) (fkind variant : string)
     (calls : list (list val)) (dms : list (outcome (list val) * outcome (list val)))
     (fcalls : list (nat * bool)) : verdict :=
@@ -186,9 +195,17 @@ Definition eval_hist (ps : list ty) (nres : nat) (fkind variant : string)
   let hit := Nat.ltb (List.length fcalls) (List.length h) in
   let eqni := exists_pair (fun a b => (keq a b && negb (vals_eqb a b))%bool) h in
   let pan := existsb (fun d => match d with Panic => true | _ => false end) directs in
+  (* hardening round 5: two arguments of the history that are NOT Equal and have the same derived Hash —
+     a real collision in the emitted table (bucket forms, the emitted code itself, not the copy with the
+     constant hash).  Only a coverage tag. *)
+  let realcoll := match form_of ps with
+                  | FBuck => (negb coll && real_collision ps h)%bool
+                  | _ => false
+                  end in
   let tag := "mem/" ++ form_tag ps ++ "/res" ++ nat_tag nres ++ "/" ++ fkind ++ "/" ++ variant
              ++ (if hit then "/hit" else "/nohit") ++ (if eqni then "/equal-not-identical" else "")
              ++ (if resliced h then "/resliced-views" else "")
+             ++ (if realcoll then "/real-hash-collision" else "")
              ++ (if respects then "" else "/f-separates-equal-args") ++ (if pan then "/f-panics" else "") in
   match m with
   | Ok (st, outs) =>
